@@ -7,6 +7,10 @@ PROP = dict(
     theorems=[
         "MM.C28.C28_every_path",
         "MM.C28.C28_pending_forward",
+        "MM.C28.C28_refuted_cross_type",
+        "MM.C28.C28_partial",
+        "MM.C28.C28_kind_bound_if_signed_bytes_bind_kind",
+        "MM.C28.C28_issued",
         "MM.C28.C28_pinned_queued_refuted",
         "MM.C28.C28_pinned_farfuture_refuted",
         "MM.C28.C28_pinned_pending_refuted",
@@ -18,7 +22,9 @@ PROP = dict(
          "with the repo's encoders and real Ed25519 keys from {valid, unsigned, garbage signature, other key, signed over another origin/id/"
          "timestamp} x timestamp {now, +-1 s, +-60 s, +-(window-3 s), +-(window+3 s), +-10^5 s, 0, 1, 2^62, 2^63-1, 2^63, 2^64-1, year 2603} x "
          "SeenBy (with/without the agent itself) x replayed ids, plus OnPeerConnected for peers 1..5; observed: sleep state, OnSleep/OnWake "
-         "callbacks, every sleep/wake frame sent to the 3 connected peers; non-trivial = the delivery changed the state or sent a frame",
+         "callbacks, every sleep/wake frame sent to the 3 connected peers; also QUEUED_STATE frames carrying BOTH commands, signatures "
+         "transplanted from a command of the other kind (`xkind`), and the issuer side (TriggerSleep on agents with/without the private key; "
+         "TriggerWake, which floods for 5 s, in the corpus and the thorough tier); non-trivial = the delivery changed the state or sent a frame",
     nontrivial=lambda op, out: op.startswith(("d ", "peer")) and ("sl=1" in out or "wk=1" in out or "fwd=-" not in out),
     trusted_base=[
         "Ed25519 modelled as an ideal signature scheme (valid iff made with the configured key over exactly origin||id||timestamp); "
@@ -30,8 +36,7 @@ PROP = dict(
     ],
     assumptions=[
         "timestampWindow < 2^63-1 ns (hypothesis hw; the agent uses 5 min)",
-        "locally originated commands (TriggerSleep/TriggerWake: an operator action on the agent itself) are not arrivals and are outside the model",
-        "QUEUED_STATE frames carrying BOTH commands are not generated (decoder offset defect is C05's subject)",
+        "the exact timestamp-window edge is probed at flooder level by engine c29 (`edge` ops); the agent-level generator stays 3 s away from it",
     ],
     manifest=dict(
         category="proof",
